@@ -26,7 +26,7 @@ def run(tier):
     tables = [p["rows"] for p in gt.printed if "rows" in p]
     pairs = list(itertools.product(tables, tables))
     exhaustive = True
-    limit = 250 if tier == "quick" else 6000
+    limit = 250 if tier == "quick" else 2500
     if len(pairs) > limit:
         rng.shuffle(pairs)
         pairs = pairs[:limit]
